@@ -57,7 +57,8 @@ def search(ctx, factor):
 def run(ctx):
     ctx.search = search
     ctx.trusted += ["reversal-table emitter of the translator (switch arms, deltas, flags, service-class ifs of File.Reversal; calculateBatchAmounts lists; StandardTransactionCode and isPrenote lists)",
-                    "hand model of the control swap, description/date rewrite and File.Create re-tabulation (coq/Model/Reversal.v), tied by the extracted-model correspondence"]
+                    "hand model of the control swap, description/date rewrite and File.Create re-tabulation (coq/Model/Reversal.v), tied by the extracted-model correspondence",
+                    "phase 3: the amount rule of ValidAmountForCodes by addenda kind and the OFFSET flag (coq/Model/ReversalGen.v) and the abstraction of generated files (harness/internal/c1113x), tied by the generated-file correspondence incl. the real Validate() of the reversed file for PPD CCD CTX WEB COR"]
     ctx.assumptions += ["validation is modelled as the fragment the property speaks about (service class vs directions, header = control class, control totals = totals by calculateBatchAmounts, standard codes, amount rule of ValidAmountForCodes without options); the full File.Validate is exercised by the oracle only",
                         "batches are of the concrete SEC types NewBatch returns (the `.(*Batch)` rebuild branch of Reversal is dead for them); IAT batches are outside the property",
                         "integers unbounded (amounts up to 10 digits, sums far below 2^63)"]
